@@ -1,4 +1,5 @@
-"""C06 - MDA algorithms return the multidisciplinary fixed point (partial: Jacobi / Gauss-Seidel / chains of them)."""
+"""C06 - MDA algorithms return the multidisciplinary fixed point (partial: Jacobi / Gauss-Seidel / Newton-Raphson / GS-Newton / chains and sequences of
+them, the acceleration methods; the harnesses of the Newton family, of the acceleration methods and of the scaling change live in harness/C06x.py)."""
 from __future__ import annotations
 
 from fractions import Fraction
@@ -9,14 +10,34 @@ from harness.common import _plain, _py, elems
 
 META = dict(
     bounds=dict(
-        quick="linear coupled systems y_i = sum_j A_ij y_j + B_i x + c_i with CONCRETE rational contraction matrices A (||A||_inf < 1; rings of 2-3 disciplines, a self-coupled discipline, two strongly connected components), symbolic inputs x and symbolic initial couplings; at most K=2 sweeps (max_mda_iter=K); MDAJacobi, MDAGaussSeidel, MDAChain/MDASequential built from them; over-relaxation factors {1, 1/2, 3/2}; residual scalings NO_SCALING and N_COUPLING_VARIABLES",
-        thorough="K=3 sweeps, all listing orders, more systems",
+        quick="(1) harnesses stationary / converged / sequential: linear coupled systems y_i = sum_j A_ij y_j + B_i x + c_i with CONCRETE rational contraction matrices A (||A||_inf < 1; rings of 2-3 disciplines, a self-coupled discipline, two strongly connected components), symbolic inputs x and symbolic initial couplings; at most K=2 sweeps (max_mda_iter=K); MDAJacobi, MDAGaussSeidel, MDAChain/MDASequential built from them; over-relaxation factors {1, 1/2, 3/2}; residual scalings NO_SCALING and N_COUPLING_VARIABLES.  "
+              "(2) harness newton (harness/C06x.py): MDANewtonRaphson, MDAGSNewton, MDASequential([MDAJacobi | MDAGaussSeidel, MDANewtonRaphson]) and MDAChain(inner_mda_name='MDANewtonRaphson') on AFFINE systems with concrete dyadic coefficients "
+              "(the affine disciplines of harness/C07.py with their exact Jacobians: ring2, ring2v and n_self2 with variables of size 2, self / n_self1 self-coupled, ring3; through MDAChain: weak = weakly coupled disciplines around a strongly coupled pair, "
+              "n_two_scc = two strongly connected components and a weakly coupled discipline), symbolic inputs, symbolic initial couplings, symbolic tolerance; max_mda_iter K in {1, 2, 3}; matrix_type matrix (sparse path) and linear_operator; "
+              "newton_linear_solver_name DEFAULT / LGMRES / GMRES; both listing orders (chosen by the solver); execute_before_linearizing on/off; disciplines filling all Jacobian blocks or only the requested ones.  Obligations: an elementary MDA that claims "
+              "convergence (stops before max_mda_iter or reports normed_residual <= tolerance; NO_SCALING and N_COUPLING_VARIABLES) leaves every discipline satisfied within ||A||_inf * tol * scale; with relaxation factor 1 and no acceleration, once every "
+              "Newton MDA has evaluated its residual twice the returned couplings ARE the closed-form solution and every returned output equals its discipline re-evaluated on the returned data (a full Newton step is exact on an affine system); "
+              "started at the exact solution the MDA returns it and reports a zero residual; relaxed (1/2) and accelerated (secant) Newton iterations: convergence claim and stationarity only; MDANewtonRaphson on weakly coupled disciplines: the documented ValueError is accepted.  "
+              "(3) harness accel (harness/C06x.py): MDAJacobi / MDAGaussSeidel x acceleration method in {Aitken, Secant, Alternate2Delta, AlternateDeltaSquared, MinimumPolynomial} x over-relaxation in {1/2, 1, 3/2} on a scalar self-coupled coupling (n_self1, symbolic input / start / tolerance) "
+              "and on two-dimensional couplings (ring2, n_self2; CONCRETE inputs in the quick tier, symbolic start and tolerance), K = 3-5 sweeps so that the first accelerated iterate is executed.  Obligations: claimed convergence => satisfied within ||A|| tol; started at the exact solution it is returned; "
+              "no division by zero (NaN couplings) in an acceleration formula on a feasible path; scalar affine coupling, relaxation 1: after the first Aitken / Secant / AlternateDeltaSquared / MinimumPolynomial step the MDA returns the exact fixed point; two-dimensional affine coupling, relaxation 1: after the first full-rank Alternate2Delta step (the default acceleration of MDAJacobi) the MDA returns the exact fixed point.  "
+              "(4) harness rescale (harness/C06x.py): one MDAJacobi / MDAGaussSeidel object executed twice with `mda.scaling = <new>` in between (6 ordered pairs of scalings): the second run must complete and, for new in {NO_SCALING, N_COUPLING_VARIABLES}, honour the new scaling in its convergence claim",
+        thorough="K=3 sweeps, all listing orders, more systems; newton: every system x both matrix types, more solvers (BICGSTAB, TFQMR), relaxation 3/2, stationarity on every system, chain / sequential variants; accel: symbolic inputs on the two-dimensional systems, Gauss-Seidel and reversed listing order, relaxation x acceleration on two-dimensional couplings, one more sweep; rescale: every ordered pair of the six residual scalings",
     ),
-    outside=["convergence beyond K sweeps (data-dependent trip count)", "MDANewtonRaphson, MDAQuasiNewton, MDAGSNewton (SuperLU / LAPACK / scipy.optimize)",
-             "acceleration methods other than plain relaxation (least-squares solves)", "non-linear systems", "symbolic coupling coefficients (z3 answers unknown)",
-             "a change confined to the Newton-type MDAs or to the acceleration methods is NOT detected"],
-    stubs=["module global float() in gemseo.mda.base_mda_solver -> identity on symbolic reals", "harness disciplines use SimpleGrammar and no cache"],
-    assumptions=["contraction: the infinity norm of the concrete coupling matrix is < 1", "tolerance tol > 0 symbolic (settings validation needs a concrete number: the MDA's settings.tolerance is overwritten after construction)"],
+    outside=["convergence beyond K sweeps (data-dependent trip count)",
+             "MDAQuasiNewton: scipy.optimize.root casts its start to float64 (MINPACK hybr/lm: 'Cannot cast array data from dtype(O)'; the Python broyden / krylov variants call float()): no symbolic value survives, nothing of it is checked",
+             "non-linear systems: on affine systems the Jacobian is constant, so WHERE MDANewtonRaphson linearizes the disciplines (before / after the execution, stale Jacobians) is not observable; symbolic coupling coefficients (z3 answers unknown)",
+             "the numerical behaviour of the linear solvers of the Newton step (LGMRES/GMRES tolerances, non-convergence, the fallback to a direct solver) and of LAPACK's lstsq (the `cond` thresholds of Alternate2Delta 1e-10 / MinimumPolynomial 1e-16 on nearly dependent difference vectors): replaced by exact-solve / exact-rank contracts",
+             "acceleration: the iterates themselves are not pinned (only: same fixed point, claimed convergence is honest, finiteness, and the exactness statements listed in the bounds); coupling dimension > 2 and MinimumPolynomial windows with more than two columns (the lstsq contract stub refuses them: inconclusive, never success); "
+             "a change of an acceleration formula that keeps the fixed point and is only visible on couplings of dimension >= 3 or after more sweeps is NOT detected; the relaxation formula itself (which iterates are combined) is not asserted",
+             "re-use of one MDA object WITHOUT a change of scaling (the reference of the INITIAL_* scalings is kept from the first execution of the object's life: not documented either way, not asserted); MinimumPolynomial keeps its difference matrices across executions (same fixed point, not asserted)",
+             "parallel execution of the disciplines (n_processes=1), warm start, caches"],
+    stubs=["module global float() in gemseo.mda.base_mda_solver -> identity on symbolic reals", "harness disciplines use SimpleGrammar and no cache",
+           "newton: the contract stubs of harness/C07.py (install_stubs, unchanged): jacobian_assembly.csr_matrix / csc_matrix / bmat / eye / empty -> value-preserving dense storage; every linear solve (the scipy Krylov wrappers behind LinearSolverLibraryFactory, a LinearOperator being probed through its matvec) -> the exact solution adj(A) b / det(A), re-checked on every path as obligations 'A x == b'",
+           "accel: scipy.linalg.lstsq in acceleration/alternate_2_delta.py and acceleration/minimum_polynomial.py -> the minimum-norm least-squares solution and the exact rank in closed form for at most 2 rows x 2 columns (zero matrix -> 0, rank 0; invertible 2x2 -> Cramer, rank 2; otherwise M^T b / ||M||_F^2, rank 1); the closed forms are re-checked by the solver on generic entries through the normal equations (except the singular 2x2 case, which follows from M = u v^T by hand: see the stub's comment); larger shapes raise Unsupported",
+           "all stubs are installed in symbolic mode only: the float64 replays and the differential self-test run the real SciPy (LGMRES / GMRES, LAPACK gelsd); in concrete mode Alternate2Delta's lstsq runs behind a wrapper that records the reported rank"],
+    assumptions=["contraction: the infinity norm of the concrete coupling matrix is < 1 (C06.py systems) / every coupling coefficient is +-1/8 (C07-style systems)", "tolerance tol > 0 symbolic (settings validation needs a concrete number: the MDA's settings.tolerance is overwritten after construction)",
+                 "newton / accel / rescale: first-attempt solver timeout 8 s (an unknown is retried once on a fresh non-linear solver with 24 s and makes the run inconclusive if it persists)"],
 )
 
 EXPLORER_OPTS = {"quick": dict(query_timeout_ms=30000), "thorough": dict(query_timeout_ms=90000)}
@@ -168,7 +189,10 @@ def h_stationary(ctx, cfg):
     res = out.get(mda.NORMALIZED_RESIDUAL_NORM)
     # with the default scaling (division by the initial residual norm) a float64 replay of an exactly stationary start divides
     # rounding noise by rounding noise: the reported residual is asserted for the unscaled norms only
-    if res is not None and cfg.get("scaling"):
+    # (and only when the MDA resolves at least one coupling: Gauss-Seidel on an acyclic system monitors an EMPTY residual vector, whose
+    # norm divided by sqrt(0 coupling variables) is reported as NaN; the property does not speak of the reported value)
+    n_resolved = len(getattr(mda, "_resolved_variable_names", ()) or ())
+    if res is not None and cfg.get("scaling") and (n_resolved or not hasattr(mda, "_resolved_variable_names")):
         ctx.check("reported residual is zero", ctx.eq(elems(res)[0], 0.0))
 
 
@@ -293,3 +317,13 @@ def configs(tier):
 
 
 HARNESSES = {"stationary": h_stationary, "converged": h_converged, "sequential": h_sequential}
+
+# ---- extension: Newton family and acceleration methods (harness/C06x.py) ---------------------------------------------------------
+from harness import C06x  # noqa: E402
+
+HARNESSES.update(C06x.HARNESSES)
+_base_configs = configs
+
+
+def configs(tier):  # noqa: F811
+    return _base_configs(tier) + C06x.configs(tier)
